@@ -135,13 +135,16 @@ REGISTRY["C05"] = {
              "activated with >=2 requests pending at once, or an activated branch that ends before the join, or an unactivated branch present. TestC05Nested: inclusive "
              "gateways nested with other forks; a shadow of the engine's bookkeeping (model/shadow.go) tells the runs in which known finding C05-F1 can apply (class "
              "inside-C05-F1-pattern: a failure with a matching symptom is attributed to the finding) from the others (class checked-strictly: any failure is a violation). "
-             "TestC05Funnel: non-trivial = the activations of the gateway are of at least two different kinds."),
+             "TestC05Funnel: non-trivial = the activations of the gateway are of at least two different kinds. TestC05Foreign (invariants, no model): the join also receives 1..3 tokens "
+             "that do not come from its fork (parallel sibling of the fork / start events of their own, one incoming flow each), a fork token arrives first: no release while an activated "
+             "branch is out, a release once all are in, 1..1+f releases in the end, completion; non-trivial = a foreign token reaches the join while an activated branch is still out."),
     "assumptions": ["inclusive gateways are not nested with other forks in the main campaign (finding C05-F1, constructed around); nested shapes are judged in TestC05Nested, strictly wherever the finding cannot apply"],
     "tests": [
         {"name": "TestC05Table", "mode": "plain", "shards": {"quick": 1, "thorough": 1}},
         {"name": "TestC05Random", "checks": {"quick": 200, "thorough": 5000}, "shards": {"quick": 8, "thorough": 16}, "gomaxprocs": [4, 1, 2, 16]},
         {"name": "TestC05Nested", "env": {"VERIF_UNRESTRICTED": "1"}, "checks": {"quick": 200, "thorough": 2000}, "shards": {"quick": 8, "thorough": 8}},
         {"name": "TestC05Funnel", "checks": {"quick": 100, "thorough": 2500}, "shards": {"quick": 4, "thorough": 16}, "gomaxprocs": [4, 1, 2, 16]},
+        {"name": "TestC05Foreign", "checks": {"quick": 150, "thorough": 2500}, "shards": {"quick": 4, "thorough": 8}, "gomaxprocs": [4, 1, 2, 16]},
     ],
 }
 
@@ -359,7 +362,9 @@ REGISTRY["C16"] = {
                    "item type incl. unknown ones and nil, WithVariables, DoWithResults (declared field types), DoWithObjects, 1..3 data objects declared in the model with JSON bodies, and olive property/header references "
                    "to present, absent and malformed paths; two instances alive at once. Oracle: an independently written canonicaliser (encoding/json semantics "
                    "inside containers) - read-back value and item type must equal canon(v); nothing panics (a panic in an engine goroutine kills the worker and "
-                   "is recovered from the journal); variables never cross instances. TestC16Isolation: 2..5 instances of one document (an exclusive gateway whose flows test v0..v3, expr or XPath) in one program, one after another or alive together, from one parsed model or several, each with its own subset of the variables: every instance must be routed by its own variables only - a variable it does not have cannot make its condition true, whatever the other instances hold."),
+                   "is recovered from the journal); variables never cross instances. TestC16Isolation: 2..5 instances of one document (an exclusive gateway whose flows test v0..v3, expr or XPath) in one program, one after another or alive together, from one parsed model or several, each with its own subset of the variables: every instance must be routed by its own variables only - a variable it does not have cannot make its condition true, whatever the other instances hold. "
+                   "TestC16SetIsolation: 2..3 executable processes of one document run by a process set use the same variable names (task stores x / n, next task's inputs and a gateway read them), answered in any interleaving: "
+                   "what an instance's task is handed and where its gateway sends the token depends on what the instance itself stored, never on what another instance of the set stored meanwhile."),
     "level_note": "Trusted: the reference canonicaliser in props/c16 (encoding/json), reflect. Typed declarations are only required not to panic (value survival is stated for variables, results and data objects, which use the inferred path). Pointers are single-level; integers inside containers are limited to +-2^53 (JSON numbers).",
     "technique": "rapid property test: round trip against an independent canonicaliser; crash detection through worker journal",
     "rule": ("Distinct = (value spec, declared type | door, reference). Non-trivial = the value is not a plain string/int, or a declared type differs from the dynamic type, or a reference path is absent/malformed."),
@@ -367,6 +372,7 @@ REGISTRY["C16"] = {
         {"name": "TestC16Value", "checks": {"quick": 6000, "thorough": 400000}, "shards": {"quick": 8, "thorough": 16}},
         {"name": "TestC16Engine", "checks": {"quick": 150, "thorough": 6000}, "shards": {"quick": 8, "thorough": 16}},
         {"name": "TestC16Isolation", "checks": {"quick": 80, "thorough": 3000}, "shards": {"quick": 4, "thorough": 8}},
+        {"name": "TestC16SetIsolation", "checks": {"quick": 80, "thorough": 3000}, "shards": {"quick": 4, "thorough": 8}},
         # reading a stored value back on EVERY visit of a task (task inputs after a loop back to the activity): the C08 campaign, run here too
         {"name": "TestC08Histories", "pkg": "props/c08", "label": "read-back-on-every-visit", "checks": {"quick": 150, "thorough": 5000}, "shards": {"quick": 4, "thorough": 8}},
         {"name": "FuzzC16ValueFrom", "mode": "fuzz", "tiers": ["thorough"], "checks": {"thorough": 120}, "shards": {"thorough": 1}, "limit": {"thorough": 900}},
